@@ -284,11 +284,11 @@ impl<U, E, T> Into<LTerm<U, E>> for Option<T>
 where
     U: User,
     E: Engine<U>,
-    T: CompoundObject<U, E> + Hash + PartialEq,
+    T: CompoundObject<U, E> + CompoundWalkStar<U, E> + Hash + PartialEq,
 {
     fn into(self) -> LTerm<U, E> {
         match self {
-            Some(x) => LTerm::from(Rc::new(x) as Rc<dyn CompoundObject<U, E>>),
+            Some(x) => LTerm::from(Rc::new(Some(x)) as Rc<dyn CompoundObject<U, E>>),
             None => LTerm::empty_list(),
         }
     }
